@@ -36,25 +36,26 @@ def harnesses_for(prop):
     return [n for n in names if any(n.startswith(p) for p in prefixes)]
 
 
-def run_kani(names, scratch, jobs=12, timeout=1500, playback=True):
-    """-> dict name -> {'status': 'ok'|'failed'|'unknown', 'failed_checks': [...], 'bytes': [...] or None, 'time_s': float}"""
+def _kani_once(names, scratch, jobs, timeout, playback):
     crate = _copy_crate(scratch)
     env = dict(os.environ)
     env["CARGO_NET_OFFLINE"] = "true"
     env["CARGO_TARGET_DIR"] = os.path.join(scratch, "kani_target")
-    cmd = ["cargo", "kani", "-j", str(jobs), "--output-format", "terse", "--exact"]
+    cmd = ["cargo", "kani", "--output-format", "terse", "--exact"]
     if playback:
-        cmd += ["-Z", "concrete-playback", "--concrete-playback=print"]
+        cmd += ["-Z", "concrete-playback", "--concrete-playback=print"]     # incompatible with -j > 1
+    else:
+        cmd += ["-j", str(jobs)]
     for n in names:
         cmd += ["--harness", "harness::proofs::" + n]
-    t0 = time.time()
     try:
         p = subprocess.run(cmd, cwd=crate, env=env, stdout=subprocess.PIPE, stderr=subprocess.STDOUT, timeout=timeout)
-        out = p.stdout.decode("utf-8", "replace")
+        return p.stdout.decode("utf-8", "replace")
     except subprocess.TimeoutExpired as e:
-        out = (e.stdout or b"").decode("utf-8", "replace") + "\nTIMEOUT"
-    res = {n: {"status": "unknown", "failed_checks": [], "bytes": None} for n in names}
-    # per-harness sections
+        return (e.stdout or b"").decode("utf-8", "replace") + "\nTIMEOUT"
+
+
+def _parse(out, res):
     for m in re.finditer(r"Checking harness harness::proofs::(\w+)\.\.\.(.*?)(?=Checking harness |Manual Harness Summary|\Z)", out, re.S):
         name, body = m.group(1), m.group(2)
         if name not in res:
@@ -67,22 +68,41 @@ def run_kani(names, scratch, jobs=12, timeout=1500, playback=True):
         tm = re.search(r"Verification Time: ([0-9.]+)s", body)
         if tm:
             res[name]["time_s"] = float(tm.group(1))
+    # with -j the per-harness bodies are not printed; fall back to the summary lines
+    for m in re.finditer(r"Verification failed for - harness::proofs::(\w+)", out):
+        if m.group(1) in res:
+            res[m.group(1)]["status"] = "failed"
     for m in re.finditer(r"Concrete playback unit test for `harness::proofs::(\w+)`:\s*```(.*?)```", out, re.S):
         name, body = m.group(1), m.group(2)
-        vals = re.findall(r"vec!\[([0-9, ]*)\]", body)
-        # first match is the outer `vec![` opener only if it has content; inner vectors hold the bytes
         bs = []
-        for v in vals:
-            v = v.strip()
-            if not v:
-                continue
+        for v in re.findall(r"vec!\[([0-9, ]*)\]", body):
             for x in v.split(","):
                 x = x.strip()
                 if x:
                     bs.append(int(x))
         if name in res and res[name]["bytes"] is None:
             res[name]["bytes"] = bs
-    return res, out, time.time() - t0
+
+
+def run_kani(names, scratch, jobs=12, timeout=1500, playback=True):
+    """-> (dict name -> {'status': 'ok'|'failed'|'unknown', 'failed_checks': [...], 'bytes': [...] or None, 'time_s'}, log, seconds)"""
+    t0 = time.time()
+    res = {n: {"status": "unknown", "failed_checks": [], "bytes": None} for n in names}
+    out = _kani_once(names, scratch, jobs, timeout, False)
+    _parse(out, res)
+    if "Complete - " in out:
+        m = re.search(r"Complete - (\d+) successfully verified harnesses, (\d+) failures, (\d+) total", out)
+        if m and int(m.group(2)) == 0 and int(m.group(1)) == len(names):
+            for n in names:
+                if res[n]["status"] == "unknown":
+                    res[n]["status"] = "ok"
+    failed = [n for n in names if res[n]["status"] == "failed"]
+    log = out
+    if playback and failed:
+        out2 = _kani_once(failed[:4], scratch, 1, timeout, True)
+        _parse(out2, res)
+        log += "\n==== playback run ====\n" + out2
+    return res, log, time.time() - t0
 
 
 def build_replay(scratch):
